@@ -184,22 +184,21 @@ Proof.
   apply good_reordered. eapply NoDup_delslice; eauto. apply G.
 Qed.
 
-Lemma good_setitem : forall s i e, Good s -> ~ In e (items s) -> 0 <= i ->
+Lemma good_setitem : forall s i e, Good s -> ~ In e (items s) ->
   Good (snd (at_setitem base s i e)).
 Proof.
-  intros s i e [O ND] He Hi. unfold at_setitem, py_getitem.
+  intros s i e [O ND] He. unfold at_setitem, py_getitem.
   destruct (norm_index i (zlen (items s))) as [n|] eqn:N; simpl; [|split; auto].
   destruct (nth_error (items s) n) eqn:Hn; simpl; [|split; auto].
   unfold ol_setitem, py_setitem. rewrite N. simpl.
   pose proof (norm_index_lt _ _ _ _ N) as Hlt.
-  assert (Zn : Z.of_nat n = i).
-  { destruct (norm_index_Some i (zlen (items s)) n N) as [_ E]; [unfold zlen; lia|].
-    destruct (i <? 0) eqn:E0; lia. }
+  assert (Zn : Z.of_nat n = (if i <? 0 then i + zlen (items s) else i)).
+  { destruct (norm_index_Some i (zlen (items s)) n N) as [_ E]; [unfold zlen; lia|]. exact E. }
   split.
   - intros k x H. simpl in *. rewrite nth_set_nth in H by assumption.
     rewrite order_entity_true.
     destruct (Nat.eqb_spec k n).
-    + inversion H; subst. rewrite set_pos_same. f_equal; lia.
+    + inversion H; subst. rewrite set_pos_same. rewrite <- Zn. reflexivity.
     + assert (x <> e) by (intro; subst; apply He; eapply nth_error_In; eauto).
       rewrite set_pos_other by assumption. auto.
   - simpl. apply NoDup_set_nth; auto.
@@ -273,16 +272,15 @@ Proof.
 Qed.
 
 Lemma set_loop_good : forall ivs s, Good s ->
-  (forall i x, In (i, x) ivs -> 0 <= i) ->
   fresh_all (map snd ivs) (items s) = true ->
   Good (snd (at_set_loop base ivs s)).
 Proof.
-  induction ivs as [|[i x] r IH]; intros s G Hi F; simpl; auto.
+  induction ivs as [|[i x] r IH]; intros s G F; simpl; auto.
   unfold fresh_all in F. simpl in F.
   apply andb_prop in F; destruct F as [F1 F2]. apply andb_prop in F1; destruct F1 as [Fx Fv].
   apply andb_prop in F2; destruct F2 as [Nx Nv].
   apply negb_true_iff in Fx, Nx. apply memz_false in Fx, Nx.
-  pose proof (good_setitem s i x G Fx (Hi i x (or_introl eq_refl))) as G1.
+  pose proof (good_setitem s i x G Fx) as G1.
   assert (Mem : forall y, In y (items (snd (at_setitem base s i x))) -> y = x \/ In y (items s)).
   { unfold at_setitem, py_getitem. destruct (norm_index i (zlen (items s))) as [n|] eqn:N; simpl; auto.
     destruct (nth_error (items s) n); simpl; auto.
@@ -292,11 +290,10 @@ Proof.
     - destruct H; auto. destruct (IHl _ _ H); auto. }
   destruct (at_setitem base s i x) as [[u|e] s1]; simpl in *; auto.
   apply IH; auto.
-  - intros j y H. apply (Hi j y). right; auto.
-  - unfold fresh_all. apply andb_true_intro; split; auto.
-    rewrite forallb_forall in *. intros y Hy. specialize (Fv y Hy).
-    apply negb_true_iff in Fv. apply memz_false in Fv. apply negb_true_iff. apply memz_false.
-    intro Hin. destruct (Mem _ Hin) as [->|]; auto.
+  unfold fresh_all. apply andb_true_intro; split; auto.
+  rewrite forallb_forall in *. intros y Hy. specialize (Fv y Hy).
+  apply negb_true_iff in Fv. apply memz_false in Fv. apply negb_true_iff. apply memz_false.
+  intro Hin. destruct (Mem _ Hin) as [->|]; auto.
 Qed.
 
 Lemma fresh_all_sub : forall v l l', (forall x, In x l' -> In x l) -> fresh_all v l = true -> fresh_all v l' = true.
@@ -326,11 +323,7 @@ Proof.
     apply ins_loop_good; auto. apply G1. eapply fresh_all_sub; eauto.
   - destruct (Nat.eqb (length v) (length (range start stop step))) eqn:L; simpl; auto.
     apply Nat.eqb_eq in L.
-    apply set_loop_good; auto.
-    + intros i x H. apply in_combine_l in H.
-      assert (Hl : 0 <= zlen (items s)) by (unfold zlen; lia).
-      pose proof (range_in_bounds sl _ _ _ _ i Hl A H). lia.
-    + apply combine_snd_fresh; auto.
+    apply set_loop_good; auto. apply combine_snd_fresh; auto.
 Qed.
 
 (* ---- one operation, then histories ---- *)
@@ -345,8 +338,7 @@ Proof.
   - apply negb_true_iff in H. apply memz_false in H. apply good_insert; auto.
   - apply good_remove; auto.
   - apply good_pop; auto.
-  - apply andb_prop in H; destruct H as [H1 H2]. apply negb_true_iff in H1. apply memz_false in H1.
-    apply good_setitem; auto. lia.
+  - apply negb_true_iff in H. apply memz_false in H. apply good_setitem; auto.
   - apply good_setslice; auto.
   - apply good_delitem; auto.
   - apply good_delslice; auto.
